@@ -16,11 +16,23 @@ in-place operations applied to the RESULT must leave the ARGUMENT's fingerprint 
 "Calling them again ... gives an identical result" is also demanded across histories: an argument that was read from
 or re-edited while it was built (gen_score `warm`) gives the results of an equal argument without that history.
 
-What is a theorem here: the container protocol (Props/C20.lean) and the reference bookkeeping of the copies an
-unfolding makes (Props/C20Refs.lean over Model/RefHeap.lean: after copy + replace_refs no list of a copy is a list of
-an original, so appending to it cannot be seen through the original; two copies share no list either), tied to
-ReplaceRefMixin.replace_refs on random graphs of real Note/GraceNote/Slur/Tuplet objects (`refs` cases).  The rest
-of the non-mutation half is decided by frame checks on generated inputs only; it is labelled so in MANIFEST/evidence.
+What is a theorem here (Props/C20*.lean):
+ * the container protocol (C20.lean; C20Seq.lean for reversed(), `in`, slices, assignment between next calls);
+ * the reference bookkeeping of the copies an unfolding makes (C20Refs.lean over Model/RefHeap.lean), tied to
+   ReplaceRefMixin.replace_refs on random graphs of real Note/GraceNote/Slur/Tuplet objects (`refs` cases);
+ * ARGUMENT FORMS (C20Forms.lean over Model/ArgForms.lean): whatever ScoreLike form the argument has, save_musicxml,
+   save_score_midi, Score(x) and ensure_notearray reach exactly the parts iter_parts reaches; `transpose` over a heap of
+   note cells leaves every cell of the argument as it was (no side condition), returns the transformed contents
+   (Score / Part) or a copy (PartGroup / list), and a second call gives an equal result; save_performance_midi reads
+   the caller's performed parts as they are for every PerformanceLike form (`argforms` / `perfforms` cases);
+   Performance(...) / sanitize_track_numbers reaches its fixed point in one pass (C20Perf.lean);
+ * the dispatch tables and literals those models copy are REGENERATED from the live source (translate_c20.py ->
+   Gen/C20Tables.lean) and proved equal to the models for every argument (C20Gen.lean);
+ * the memo behind the read-only property number_of_staves (C20Cache.lean): a read never changes the objects and no
+   result depends on the memo, for all histories of add / remove / read (`staves` cases).
+The rest of the non-mutation half (the exporters' and analysers' bodies) is decided by frame checks on generated inputs —
+now for EVERY form of the documented ScoreLike / PerformanceLike unions and every read-only function found in
+partitura's public namespaces (harness/c20_forms.py `discover`); it is labelled so in MANIFEST/evidence.
 """
 import copy
 import io
@@ -31,28 +43,52 @@ import numpy as np
 import wire as W
 from core import Eval
 import gen_score as G
+import c20_forms as F
 
 PROPERTY = "C20"
 DRIVER = "drv_c20"
-PROPS = ["PartituraModel.Props.C20", "PartituraModel.Props.C20Refs"]
+PROPS = ["PartituraModel.Props.C20", "PartituraModel.Props.C20Refs", "PartituraModel.Props.C20Forms",
+         "PartituraModel.Props.C20Seq", "PartituraModel.Props.C20Gen", "PartituraModel.Props.C20Cache",
+         "PartituraModel.Props.C20Perf"]
 TRUSTED = [
-    "Python iterator protocol (iter()/next() dispatch to __iter__/__next__), list indexing",
+    "Python iterator protocol (iter()/next() dispatch to __iter__/__next__; reversed() and `in` fall back to "
+    "__len__/__getitem__ and __iter__ for classes without __reversed__/__contains__), list indexing and slicing",
     "frame checks: the deep fingerprint of harness/gen_score.py is taken as 'the argument exactly as it was'",
+    "copy.deepcopy allocates a new object for every note it reaches (Model/ArgForms.lean `copyParts`; parts do not share notes)",
+    "isinstance / collections.abc.Iterable as interpreted by Model/ArgFormsGen.lean (a Performance is iterable)",
+    "sorted(set(pairs)) of sanitize_track_numbers = strictly sorted list without duplicates (Model/ArgForms.lean `sortedSet`)",
 ]
-PARTIAL = ["non-mutation and repeatability are established by frame checks (deep fingerprint before/after, results of "
-           "repeated calls compared) on generated inputs, not by a theorem: in the Lean models every read-only operation "
-           "is a pure function, which says nothing about Python object graphs"]
+PARTIAL = ["non-mutation and repeatability of the BODIES of the exporters and analysers (what save_musicxml / save_score_midi / "
+           "save_match / the note-array builders / the estimators do with the parts they reach) are established by frame "
+           "checks (deep fingerprint before/after, results of repeated calls compared) on generated inputs, not by a theorem; "
+           "proved are the argument normalisation of every form, transpose over the heap, the copies of an unfolding, the "
+           "number_of_staves memo and the container protocol",
+           "slice ASSIGNMENT (c[a:b] = [...]) changes the number of parts and is not modelled"]
 RULE = ("(c) random graphs of real Note/GraceNote/Slur/Tuplet objects copied with copy() + replace_refs(o_map) and compared, "
         "attribute by attribute and list identity by list identity, with the Lean heap model; (d) in-place operations on "
         "results, arguments with construction histories compared with twins without; "
-        "(a) random interleavings of iter/next/len/getitem on real Score and Performance objects with 0-4 parts, "
-        "compared with the Lean container model; (b) generated scores/parts/performances on which every read-only entry "
-        "point is called twice in a random order with a deep fingerprint (incl. object identities) before and after "
-        "each call; distinct = distinct op sequence / distinct (seed, entry point order)")
-LEVEL_TEXT = ("Copies made by unfolding share no list with the original (Lean theorem over all object graphs, all o_maps, "
-              "all appends; tied to replace_refs differentially). Container protocol: Lean 4 theorem by induction over every interleaving of iter/next/len/getitem calls on "
-              "any number of handles (each handle sees the parts in order, then StopIteration), tied to Score/Performance "
-              "by differential runs. Non-mutation/repeatability: checked correspondence only (frame checks), not proved.")
+        "(a) random interleavings of iter/next/len/getitem (and reversed/in/slice/assignment/missing methods: proto3) on real "
+        "Score and Performance objects with 0-4 parts, compared with the Lean container model and with a plain Python list; "
+        "(b) generated scores/parts/performances on which every read-only entry point is called twice in a random order with a "
+        "deep fingerprint (incl. object identities) before and after each call; "
+        "(e) forms: every form of the ScoreLike / PerformanceLike unions read from the live source (Score, Score built from "
+        "groups, Part alone / taken out of a Score / of a group, PartGroup, nested groups, list, tuple, list holding a group; "
+        "Performance with and without unique tracks, PerformedPart alone / taken out of a Performance / on a non-zero track / "
+        "with controls without a track key / with gaps, list, tuple) x every read-only function discovered in partitura's "
+        "public namespaces, frame taken over the argument AND its owners; (f) argforms / perfforms: random part trees "
+        "(nesting depth 0-3) and random track entries (missing keys, -1, gaps) in every form, compared with "
+        "Model/ArgForms.lean (iter_parts, Score(x), parts visited by save_musicxml / save_score_midi / ensure_notearray, "
+        "transpose over the note heap, save_performance_midi, Performance(...) + num_tracks); (g) staves: histories of "
+        "add/remove/number_of_staves; distinct = distinct request text / (seed, form)")
+LEVEL_TEXT = ("Lean 4 theorems over all inputs: container protocol incl. reversed / in / slices / assignment between next "
+              "calls (every handle sees every position once, for every interleaving); copies made by unfolding share no "
+              "list with the original; for every ScoreLike form the exporters, Score(x) and ensure_notearray reach exactly "
+              "the parts iter_parts reaches; transpose leaves every note cell of its argument as it was, for every form, "
+              "and is repeatable; save_performance_midi binds every PerformanceLike form to the caller's own parts "
+              "(dispatch tables regenerated from the live source and proved equal to the model); the number_of_staves memo "
+              "never changes objects and no result depends on it. All tied to the code by differential runs. "
+              "Non-mutation/repeatability of the exporters' and analysers' bodies: frame checks only (every entry point x "
+              "every documented argument form), not proved.")
 
 
 def cases(rng, tier):
@@ -76,6 +112,32 @@ def cases(rng, tier):
             else:
                 ops.append(["set", rng.randint(-nparts - 1, nparts), 100 + len(ops)])  # c[i] = a new part
         yield {"k": "proto", "kind": rng.choice(["score", "performance"]), "n": nparts, "ops": ops}
+    # the rest of the sequence protocol: reversed() (sequence-protocol fallback), `in`, slices, assignment BETWEEN
+    # next calls, the list methods the containers do not have
+    for _ in range(200 if tier == "quick" else 5000):
+        nparts = rng.choice([0, 1, 2, 3, 3, 4])
+        ops, handles = [], 0
+        for _ in range(rng.randint(1, 24)):
+            r = rng.random()
+            if r < 0.12 or handles == 0 and r < 0.4:
+                ops.append([rng.choice(["iter", "riter"])])
+                handles += 1
+            elif r < 0.55 and handles:
+                ops.append(["next", rng.randrange(handles)])
+            elif r < 0.6:
+                ops.append(["len"])
+            elif r < 0.68:
+                ops.append(["get", rng.randint(-nparts - 2, nparts + 1)])
+            elif r < 0.8:
+                ops.append(["set", rng.randint(-nparts - 1, nparts), 100 + len(ops)])
+            elif r < 0.88:
+                ops.append(["in", rng.choice([rng.randrange(nparts + 1), 100 + rng.randrange(len(ops) + 1)])])
+            elif r < 0.97:
+                b = lambda: rng.choice([None, None] + list(range(-nparts - 2, nparts + 3)))
+                ops.append(["slice", b(), b(), rng.choice([None, None, 1, 2, -1, -2, 3, 0])])
+            else:
+                ops.append(["noattr", rng.choice(["index", "count", "del"])])
+        yield {"k": "proto3", "kind": rng.choice(["score", "performance"]), "n": nparts, "ops": ops}
     for nparts in (2, 3):
         yield {"k": "nested", "kind": "score", "n": nparts}
         yield {"k": "nested", "kind": "performance", "n": nparts}
@@ -94,6 +156,24 @@ def cases(rng, tier):
     for _ in range(8 if tier == "quick" else 300):
         yield {"k": "frame", "seed": rng.randrange(2**31), "what": rng.choice(["part", "part", "score"]), "nav": True,
                "segments": True, "edit_result": rng.random() < 0.3}
+    # the normalisation glue of the entry points against Model/ArgForms.lean (cheap: tiny parts)
+    for _ in range(120 if tier == "quick" else 4000):
+        yield F.argforms_desc(rng)
+    for _ in range(200 if tier == "quick" else 6000):
+        yield F.perfforms_desc(rng)
+    # the memo behind the read-only property number_of_staves: histories of add / remove / read (Model/StavesCache.lean)
+    for _ in range(100 if tier == "quick" else 3000):
+        yield F.staves_desc(rng)
+    # ARGUMENT FORMS: every form of the documented ScoreLike / PerformanceLike unions (read from the live source),
+    # every registered read-only entry point on each; each form at least once per run, in a random order
+    forms, _missing = F.form_table()
+    reps = 1 if tier == "quick" else 40
+    fl = [f for f in forms for _ in range(reps)]
+    rng.shuffle(fl)
+    for side, form in fl:
+        yield {"k": "forms", "side": side, "form": form, "seed": rng.randrange(2**31)}
+    for _ in range(3 if tier == "quick" else 100):
+        yield {"k": "pairs", "seed": rng.randrange(2**31)}
     m = 20 if tier == "quick" else 1200
     for _ in range(m):
         c = {"k": "frame", "seed": rng.randrange(2**31), "what": rng.choice(["score", "score", "part", "performance"])}
@@ -186,6 +266,8 @@ def evaluate(d):
             ev.oracle.append("container protocol: %s with %d parts, op #%d %s returned %s, expected %s (ops=%s)" % (
                 d["kind"], d["n"], j, d["ops"][j], outs[j], ref[j], d["ops"]))
         ev.key = "proto:" + ev.requests[0]
+    elif k == "proto3":
+        proto3_case(d, ev)
     elif k == "refs":
         refs_case(d, ev)
     elif k == "nested":
@@ -199,10 +281,132 @@ def evaluate(d):
         if z != [(i, i) for i in range(d["n"])]:
             ev.oracle.append("zip(c, c) over a %s visited %s" % (d["kind"], z))
         ev.key = "nested:%s:%d" % (d["kind"], d["n"])
+    elif k == "argforms":
+        ev.requests, ev.impl, ev.oracle = F.observe_argforms(d)
+        ev.key = "argforms:" + ev.requests[0]
+    elif k == "staves":
+        ev.requests, ev.impl, ev.oracle = F.observe_staves(d)
+        ev.key = "staves:" + ev.requests[0]
+    elif k == "perfforms":
+        ev.requests, ev.impl, ev.oracle = F.observe_perfforms(d)
+        ev.key = "perfforms:" + ev.requests[0]
+    elif k == "pairs":
+        pairs_case(d, ev)
+        ev.key = "pairs:%d" % d["seed"]
+    elif k == "forms":
+        forms_case(d, ev)
+        ev.key = "forms:%s:%s:%d" % (d["side"], d["form"], d["seed"])
     else:
         frame_case(d, ev)
         ev.key = "frame:%d:%s" % (d["seed"], d["what"])
     return ev
+
+
+def proto3_case(d, ev):
+    """the extended protocol on a real Score / Performance; the REFERENCE is a plain Python list driven by the same
+    operations (list iterators, reversed(), `in`, slicing): the containers promise to behave like the list of their
+    parts.  The Lean model (IterProto.run3) must agree with the implementation as well."""
+    c, parts = make_container(d["kind"], d["n"])
+    idx = {id(p): i for i, p in enumerate(parts)}
+    keep = list(parts)
+    n = d["n"]
+    ref_list = list(range(n))          # the reference container: ids of the parts
+    rh, ih = [], []                    # reference handles / implementation handles
+    outs, refs = [], []
+    tok = lambda i: "p%d" % i
+
+    def ref_next(h):
+        kind, pos = rh[h]
+        if kind == "f":
+            if pos < len(ref_list):
+                rh[h] = (kind, pos + 1)
+                return tok(ref_list[pos])
+            return "stop"
+        if pos >= 0:
+            rh[h] = (kind, pos - 1)
+            return tok(ref_list[pos])
+        return "stop"
+
+    for op in d["ops"]:
+        try:
+            if op[0] in ("iter", "riter"):
+                ih.append(iter(c) if op[0] == "iter" else reversed(c))
+                rh.append(("f", 0) if op[0] == "iter" else ("r", len(ref_list) - 1))
+                o = r = "h%d" % (len(ih) - 1)
+            elif op[0] == "next":
+                r = ref_next(op[1])
+                try:
+                    o = tok(idx[id(next(ih[op[1]]))])
+                except StopIteration:
+                    o = "stop"
+            elif op[0] == "len":
+                o, r = "len%d" % len(c), "len%d" % len(ref_list)
+            elif op[0] == "get":
+                r = tok(ref_list[op[1]]) if -n <= op[1] < n else "IndexError"
+                try:
+                    o = tok(idx[id(c[op[1]])])
+                except IndexError:
+                    o = "IndexError"
+            elif op[0] == "set":
+                _, newparts = make_container(d["kind"], 1)
+                idx[id(newparts[0])] = op[2]
+                keep.append(newparts[0])
+                if -n <= op[1] < n:
+                    ref_list[op[1]] = op[2]
+                    r = "len%d" % n
+                else:
+                    r = "IndexError"
+                try:
+                    c[op[1]] = newparts[0]
+                    o = "len%d" % len(c)
+                except IndexError:
+                    o = "IndexError"
+            elif op[0] == "in":
+                r = "T" if op[1] in ref_list else "F"
+                obj = [p for p in keep if idx[id(p)] == op[1]]
+                if not obj:   # a part that was never in the container
+                    _, np_ = make_container(d["kind"], 1)
+                    obj = np_
+                o = "T" if obj[0] in c else "F"
+            elif op[0] == "slice":
+                try:
+                    r = "[" + ",".join(tok(i) for i in ref_list[slice(op[1], op[2], op[3])]) + "]"
+                except ValueError:
+                    r = "ValueError"
+                try:
+                    got = c[slice(op[1], op[2], op[3])]
+                    o = "[" + ",".join(tok(idx[id(p)]) for p in got) + "]"
+                except ValueError:
+                    o = "ValueError"
+            else:
+                r = "AttributeError"   # not list methods of these classes; nothing may change
+                try:
+                    if op[1] == "index":
+                        c.index(keep[0] if keep else None)
+                    elif op[1] == "count":
+                        c.count(keep[0] if keep else None)
+                    else:
+                        del c[0]
+                    o = "no-error"
+                except AttributeError:
+                    o = "AttributeError"
+        except Exception as e:
+            o = "err:%s" % type(e).__name__
+        outs.append(o)
+        refs.append(r)
+    def optok(op):
+        if op[0] == "slice":
+            return "slice " + " ".join("-" if x is None else str(x) for x in op[1:])
+        if op[0] == "noattr":
+            return "noattr"
+        return " ".join(str(x) for x in op)
+    ev.requests.append("run3 %d %s" % (n, W.lst(optok, d["ops"])))
+    ev.impl.append("[" + ",".join(outs) + "]")
+    if outs != refs:
+        j = [i for i, (a, b) in enumerate(zip(outs, refs)) if a != b][0]
+        ev.oracle.append("container protocol: %s with %d parts, op #%d %s returned %s, a list of the parts gives %s (ops=%s)" % (
+            d["kind"], n, j, d["ops"][j], outs[j], refs[j], d["ops"]))
+    ev.key = "proto3:" + ev.requests[0]
 
 
 # ------------------------------------------------------------------ frame checks
@@ -533,6 +737,128 @@ def frame_case(d, ev):
     ev.info = {"raised": raised, "order": order[: len(names)]}
 
 
+def forms_case(d, ev):
+    """every read-only entry point of the registry (c20_forms.discover) on ONE argument form of the documented
+    ScoreLike / PerformanceLike union: called twice (second round in reverse order); the frame is taken over everything
+    the argument reaches AND everything that owns it (the Score / Performance a part was taken out of, the group it sits
+    in, the list / tuple object itself)"""
+    import inspect
+
+    rng = random.Random(d["seed"])
+    if d["side"] == "S":
+        arg, parts, groups, score, seq = F.build_score_form(d["form"], rng)
+        fp = lambda: F.fp_score_form(parts, groups, score, seq)
+    else:
+        arg, pps, perf, seq = F.build_perf_form(d["form"], rng)
+        fp = lambda: F.fp_perf_form(pps, perf, seq)
+    eps, info = F.entry_points(d["side"])
+    names = sorted(eps)
+    rng.shuffle(names)
+    order = names + names[::-1]
+    results, raised, ok = {}, {}, set()
+    epoch = 0
+    base = fp()
+    what = "%s form '%s'" % ("ScoreLike" if d["side"] == "S" else "PerformanceLike", d["form"])
+    for nm in order:
+        try:
+            r = eps[nm](arg)
+            if inspect.isgenerator(r):
+                r = list(r)
+            r = F.canon_score_result(r, canon_result) if d["side"] == "S" else canon_result(r)
+            err = None
+        except BaseException as e:
+            if isinstance(e, (KeyboardInterrupt, SystemExit)):
+                raise
+            r, err = None, type(e).__name__
+        now = fp()
+        if now != base:
+            ev.oracle.append("%s modified its argument (%s): %s" % (nm, what, fp_diff(base, now)))
+            base = now
+            epoch += 1
+        if err:
+            raised[nm] = err
+        elif nm in results and results[nm][0] == epoch:
+            ok.add(nm)
+            if results[nm][1] != r:
+                ev.oracle.append("%s is not repeatable: second call on the same argument (%s) gives a different result" % (nm, what))
+        else:
+            results[nm] = (epoch, r)
+    ev.info = {"raised": {"%s[%s]" % (k_, d["form"]): v for k_, v in raised.items()}, "form": d["form"], "side": d["side"],
+               "accepted": sorted(ok), "registry": {k_: v for k_, v in info.items() if k_ != "skipped"}}
+
+
+def pairs_case(d, ev):
+    """the entry points that take a score-like AND a performance-like argument (save_match, save_parangonada_csv,
+    encode_performance, make_performance_features — found by c20_forms.discover as `paired`): every combination of a
+    ScoreLike form of one part with a PerformanceLike form of its performance; both arguments are framed"""
+    import partitura.score as S
+    import partitura.performance as P
+    import partitura.utils.music as M
+
+    rng = random.Random(d["seed"])
+    pd = G.random_part_desc(rng, pid="P0", n_measures=rng.randint(1, 2), alters=(-1, 0, 0, 1), p_grace=0.0)
+    reg = F.discover()
+    paired = {n: e["fn"] for n, e in reg.items() if e["status"] == "readonly" and len(e["params"]) > 1}
+    recipes = {
+        "save_match": lambda f, al, pa, sa: [str(l.matchline) for l in f(al, pa, sa, out=None, assume_unfolded=True).lines],
+        "save_parangonada_csv": lambda f, al, pa, sa: f(al, pa, sa, outdir=None),
+        "encode_performance": lambda f, al, pa, sa: f(sa, pa, al),
+        "make_performance_features": lambda f, al, pa, sa: f(sa, pa, al, feature_functions="all"),
+    }
+    sforms = {"part": lambda p: p, "score": lambda p: S.Score([p]), "list": lambda p: [p],
+              "group": lambda p: F._group(S, [p], 1)}
+
+    def off_track(pp):
+        for n in pp.notes:
+            n["track"] = 2
+        return pp
+
+    pforms = {"performance": lambda pp: P.Performance([pp]), "ppart": lambda pp: pp, "pplist": lambda pp: [pp],
+              "ppart_offset_track": off_track}
+    checked = []
+    for sf in sorted(sforms):
+        for pf in sorted(pforms):
+            part = G.build_part(copy.deepcopy(pd))
+            try:
+                pp = M.performance_from_part(part, bpm=100)
+            except Exception:
+                return
+            al = [{"label": "match", "score_id": n.id, "performance_id": n.id} for n in part.notes_tied]
+            sa, pa = sforms[sf](part), pforms[pf](pp)
+            al0 = copy.deepcopy(al)
+            fp = lambda: (G.fingerprint_part(part, with_ids=True)["objects"], G.fingerprint_part(part)["points"],
+                          F.fp_perf_form([pp], pa if isinstance(pa, P.Performance) else None, pa if isinstance(pa, list) else None))
+            base = fp()
+            for nm in sorted(paired):
+                if nm not in recipes:
+                    continue
+                res = []
+                for _ in range(2):
+                    try:
+                        res.append(canon_result(recipes[nm](paired[nm], al, pa, sa)))
+                    except BaseException as e:
+                        if isinstance(e, (KeyboardInterrupt, SystemExit)):
+                            raise
+                        res.append(("raised", type(e).__name__))
+                    now = fp()
+                    if now != base:
+                        side = "score" if now[:2] != base[:2] else "performance"
+                        ev.oracle.append("%s modified its %s argument (forms %s x %s): %s" % (
+                            nm, side, sf, pf, fp_diff(list(base), list(now))))
+                        base = now
+                        res = []
+                        break
+                    if al != al0:
+                        ev.oracle.append("%s modified its alignment argument (forms %s x %s)" % (nm, sf, pf))
+                        al0 = copy.deepcopy(al)
+                if len(res) == 2 and res[0] != res[1]:
+                    ev.oracle.append("%s is not repeatable: second call on the same arguments (forms %s x %s) gives a different result" % (nm, sf, pf))
+                if len(res) == 2 and not (isinstance(res[0], tuple) and res[0][:1] == ("raised",)):
+                    checked.append("%s[%s x %s]" % (nm, sf, pf))
+    ev.info = {"accepted": checked, "form": "pairs", "raised": {},
+               "unknown_paired": sorted(n for n in paired if n not in recipes)}
+
+
 def refs_case(d, ev):
     """the copying step of ScoreVariant.create_variant_part on a random graph of real Note / GraceNote / Slur / Tuplet
     objects: `copy(o)` for the chosen objects, then `replace_refs(o_map)` on every copy.  Observed: every reference
@@ -700,9 +1026,37 @@ def shrink(d):
 def distribution(descs, results):
     from collections import Counter
 
-    c = Counter(d["k"] + ":" + d.get("what", d.get("kind", "")) for d in descs)
+    c = Counter(d["k"] + ":" + str(d.get("what", d.get("kind", d.get("form", "")))) for d in descs)
     raised = Counter()
+    accepted = Counter()     # entry point x argument form on which both calls returned (the frame was checked on all)
+    registry = {}
     for r in results:
-        for nm, e in (r.get("info") or {}).get("raised", {}).items():
+        info = r.get("info") or {}
+        for nm, e in info.get("raised", {}).items():
             raised[nm + ":" + e] += 1
-    return {"by_kind": dict(c), "entry_points_that_raised": dict(raised)}
+        for nm in info.get("accepted", []):
+            accepted["%s[%s]" % (nm, info.get("form"))] += 1
+        if info.get("registry"):
+            registry[info.get("side")] = info["registry"]
+    # shapes of the Lean-tied streams
+    tree_depth = Counter()
+    def depth(x):
+        return 0 if x[0] == "p" else 1 + max([depth(c_) for c_ in x[1]] + [0])
+    ops3, staves_ops, perf_tracks = Counter(), Counter(), Counter()
+    for d in descs:
+        if d["k"] == "argforms":
+            tree_depth["%s/depth%d" % (d["form"], max([depth(x) for x in d["tree"]] + [0]))] += 1
+        elif d["k"] == "proto3":
+            for op in d["ops"]:
+                ops3[op[0]] += 1
+        elif d["k"] == "staves":
+            for op in d["ops"]:
+                staves_ops[op[0]] += 1
+        elif d["k"] == "perfforms":
+            canon = all(t == 0 for pp in d["pps"] for t in pp["notes"])
+            perf_tracks["%s/%s/%s" % (d["form"], "ensure" if d["ensure"] else "keep", "canonical" if canon else "noncanonical")] += 1
+    forms, missing = F.form_table()
+    return {"by_kind": dict(c), "entry_points_that_raised": dict(raised), "entry_point_x_form_checked": dict(accepted),
+            "registry": registry, "forms_generated": ["%s:%s" % f for f in forms], "forms_without_builder": missing,
+            "argforms_shapes": dict(tree_depth), "proto3_ops": dict(ops3), "staves_ops": dict(staves_ops),
+            "perfforms_shapes": dict(perf_tracks)}
